@@ -108,12 +108,53 @@ def attributed_events(fn: Scope) -> list[Event]:
     return out
 
 
+class CanonWalker(SkelWalker):
+    """The skeleton lays the branches of an `if` out one after the other, so which binding is the latest before a read depends on
+    their order. `if not C: A else: B` and `if C: B else: A` are the same decision: the branches are laid out in the order of the
+    positive test, whichever way the template spells it."""
+
+    def stmt(self, n: Any, env: dict[str, Any], tname: str) -> None:
+        from jinja2 import nodes
+
+        if isinstance(n, nodes.If) and isinstance(n.test, nodes.Not) and n.else_ and not n.elif_:
+            n = nodes.If(n.test.node, n.else_, [], n.body, lineno=n.lineno)
+        super().stmt(n, env, tname)
+
+
+def class_reads(rep: Report, sc: Scope, tn: str, path: str, reserved: frozenset[str], endpoint_reserved: set[str],
+                module_names: set[str]) -> None:
+    """Decided for the names the template text itself binds at module level (its imports, assignments and defs: the names it could
+    protect by an alias); names that reach the class body through document-dependent import lines are not decided here."""
+    holes = [e for e in sc.events if e.hole and e.kind in ("ATTRBIND", "BIND")]
+    for t in sorted({e.name for e in sc.events if not e.hole and e.kind == "READ"} & module_names):
+        hb = [h for h in holes if producible(t, h, reserved, endpoint_reserved, tn)]
+        tb = [e for e in sc.events if not e.hole and e.kind in ("ATTRBIND", "BIND") and e.name == t]
+        binds = sorted(hb + tb, key=lambda e: e.pos)
+        found: dict[str, Event] = {}
+        for r in sc.events:
+            if r.kind == "READ" and not r.hole and r.name == t:
+                prev = [b for b in binds if b.pos < r.pos]
+                if prev and prev[-1].hole:
+                    found.setdefault("class-body-reads-document-value", r)  # (no site in the key: which branch is laid out last is layout)
+        base = f"{tn}::{path}::{t}"
+        if not found:
+            rep.ok("R18.1", f"{base}::class-body-read", f"`{t}`", "no document-named attribute is assigned before the read",
+                   nontrivial=bool(hb))
+        for kind, ev in sorted(found.items()):
+            rep.fail("R18.1", f"{base}::{kind}",
+                     f"a property named `{t}` is assigned in the class body before the template's own `{t}` is read there "
+                     f"(e.g. skeleton line {ev.line}: `{ev.text}`): the class statement evaluates the document's value",
+                     where=f"{PKG}/templates/{tn} (scope {path})", lhs=f"fixed name `{t}`", rhs="not producible, or read before any "
+                     "document-named assignment", example=ev.text)
+
+
 def run(rep: Report, ctx: Any) -> str:
     ix = ctx.py
     ch = ctx.chars
     rep.rule("R18.1", "for no fixed (template-written) name t that a name hole can produce is the collision harmful: a template "
                       "read of t whose latest binding may be the document's, a document-name read whose latest binding is the "
-                      "template's (clobbered), a duplicate parameter, or a duplicate class attribute")
+                      "template's (clobbered), a duplicate parameter, a duplicate class attribute, or a class-body read of a name the "
+                      "template binds at module level after a document-named attribute was assigned")
     rep.rule("R18.2", "the reserved-word renaming is applied on every path of both name constructors and the operation-parameter "
                       "reservation exists")
     reserved = ch.reserved_words(None)
@@ -139,7 +180,7 @@ def run(rep: Report, ctx: Any) -> str:
         "over-approximation of the template flow graph)",
     ]
 
-    w = SkelWalker(ctx.jinja, type_idents(ix))
+    w = CanonWalker(ctx.jinja, type_idents(ix))
     n_scopes = 0
     n_fixed = 0
     n_events = 0
@@ -176,6 +217,10 @@ def run(rep: Report, ctx: Any) -> str:
                                  lhs=f"template member `{t}`", rhs="not producible by a property name")
                     else:
                         rep.ok("R18.1", key, f"template member `{t}`", "not producible / no hole")
+                # the class body is code too: a name the template reads there (decorator arguments, attribute defaults such as
+                # `= field(...)`) after a document-named attribute was assigned refers to the document's value
+                class_reads(rep, sc, tn, path, reserved, endpoint_reserved,
+                            {e.name for e in root.events if not e.hole and e.kind == "BIND"})
                 continue
             evs = attributed_events(sc)
             fixed_names = sorted({e.name for e in evs if not e.hole})
@@ -245,5 +290,7 @@ def run(rep: Report, ctx: Any) -> str:
     reads = [e for e in fsc.events if not e.hole and e.kind == "READ" and e.name == "d"]
     fired = bool(hb) and any(r.pos > hb[0].pos for r in reads) and producible("d", hb[0], reserved, endpoint_reserved, "model.py.jinja")
     rep.control("R18.1 d-capture", fired)
+    rep.not_decided.append("class-body reads of names that are not bound by template text at module level (e.g. helpers imported through "
+                           "a property's own import lines and called in an attribute default)")
     rep.not_decided.append("hole-versus-hole collisions between affixed names (e.g. list `a` and a property `a_item_data`)")
     return LEVEL
